@@ -769,7 +769,13 @@ func (c *fnCtx) binary(x *ast.BinaryExpr) string {
 		b := c.expr(x.Y)
 		c.safeIdx = saved
 		if c.nparts != before {
-			c.fail(x.Y, "an operation that can panic in the right operand of %s (Go would skip it; the translation would not)", x.Op)
+			// the right operand can panic and Go evaluates it only when the left one does not decide: keep that order —
+			// its panicking operations are lifted inside the branch, not in front of the whole expression
+			c.nparts = before + 1
+			if x.Op == token.LAND {
+				return "(← (if " + a + " then (do pure " + b + ") else pure false))"
+			}
+			return "(← (if " + a + " then pure true else (do pure " + b + ")))"
 		}
 		if x.Op == token.LAND {
 			return "(" + a + " && " + b + ")"
